@@ -107,15 +107,24 @@ def vector_space_axioms():
 
 
 def ensure_expr(en, name, cond):
-  """cond is an equality of operator expressions.  Decided in EUF first (complete, gives a counter-model); an expression that fails there
-  but is equal modulo the vector-space / linearity axioms is accepted (a harmless rearrangement is not a violation)."""
+  """cond is an equality (or a conjunction of equalities) of operator expressions.  Decided in EUF first (gives a counter-model); an expression
+  that fails there is compared by multilinear normal form (vlib/pyvc/multilinear.py: vector-space laws, linearity of every operator, the pointwise
+  product bilinear / commutative / associative, vertical advection bilinear) -- so a rearrangement that these laws justify is not a violation."""
   from vlib import smt
-  v = smt.valid(list(en.axioms) + list(en.pc), E.to_z3(cond), timeout_ms=20000)
+  from vlib.pyvc import multilinear as ML
+  cond = E.to_z3(cond)
+  v = smt.valid(list(en.axioms) + list(en.pc), cond, timeout_ms=20000)
   if v.status != 'valid':
-    v2 = smt.valid(list(en.axioms) + list(en.pc) + vector_space_axioms(), E.to_z3(cond), timeout_ms=20000)
-    if v2.status == 'valid':
-      en.results.append(E.ObligationResult(name + ' [modulo vector-space and linearity axioms]', 'valid', seconds=v.seconds + v2.seconds, back_end=v2.back_end))
-      return True
+    eqs = list(cond.children()) if z3.is_and(cond) else [cond]
+    if all(z3.is_eq(q) for q in eqs):
+      alg = ML.Algebra(bilinear={'vertical_advection'}, opaque={'t_omega_over_sigma_sp', 'nodal_reciprocal'})
+      try:
+        res = [alg.equal(q.arg(0), q.arg(1)) for q in eqs]
+      except ValueError:
+        res = [(False, 'outside the multilinear fragment')]
+      if all(ok for ok, _ in res):
+        en.results.append(E.ObligationResult(name + ' [by multilinear normal form]', 'valid', seconds=v.seconds, back_end='multilinear-normal-form'))
+        return True
   return en.ensure(name, cond)
 
 
